@@ -60,14 +60,14 @@ class EqGoal(object):
         for x, y in ((self.a.re, self.b.re), (self.a.im, self.b.im)):
             if x.is_zero() and y.is_zero():
                 continue
-            n1, m1, n2, m2 = q_eq_parts(x, y)
+            n1, m1, n2, m2, dsc = q_eq_parts(x, y)
             l = "(* %s %s)" % (n1.smt(), m1.smt())
             r = "(* %s %s)" % (n2.smt(), m2.smt())
             if sep is None:
                 outs.append("(not (= %s %s))" % (l, r))
             else:
-                # |x - y| >= sep  <=> (n1 m1 - n2 m2)^2 >= sep^2 * L^2,  L = common denominator
-                L = "(* %s %s)" % (m1.smt(), x.den_poly().smt())
+                # |x - y| >= sep  <=> (n1 m1 - n2 m2)^2 >= sep^2 * L^2,  L = common denominator (with its scalar)
+                L = "(* %d.0 (* %s %s))" % (dsc, m1.smt(), x.den_poly().smt())
                 outs.append("(>= (* (- %s %s) (- %s %s)) (* %s (* %s %s)))" % (l, r, l, r, P._smt_q(Fraction(sep) ** 2), L, L))
         if not outs:
             return "false"
@@ -139,6 +139,15 @@ class Harness(object):
             d = min(d, hi - 0.5)
         v = self._val(name, d)
         self.inputs[name] = v
+        # a supplied value must satisfy the declared domain, otherwise the replay is not a counterexample
+        if positive:
+            self.assume(v > 0, "%s > 0" % name)
+        if nonzero:
+            self.assume(v != 0, "%s != 0" % name)
+        if lo is not None:
+            self.assume(v >= lo, "%s >= %r" % (name, lo))
+        if hi is not None:
+            self.assume(v <= hi, "%s <= %r" % (name, hi))
         return v
 
     def cplx(self, name):
